@@ -34,6 +34,26 @@ CHECKS = {
          "Lean theorems: cat (block placement with running offsets), pad (tensor branch: constant fill of any value after the repair; zero fill core-wise), diag in both directions, mprod, to_ttm, conj, clone equal the dense operation for every order / mode / rank profile / core value. The operator branch of pad is covered by model + exact correspondence + dense oracle. "
          "Tie: exact core-level correspondence; dense oracle (torch.cat, F.pad, diag, tensordot) on every case.",
          TB + "operator padding has no Lean theorem yet (model + correspondence + oracle only)", "§5 C09"),
+ "C02": ("proof",
+         "Lean theorems (M-trunc, shared with C01, restated for the call pattern of round_tt): the rank chosen at every bond is >= 1, <= the old rank, <= rmax; when rmax is not binding the discarded energy is within the per-bond allowance (ties included); an unfolding whose tail singular values vanish is compressed to its true rank for every eps > 0; the d-1 allowances sum to eps². "
+         "Tie: every rank decision taken inside round() is recorded and replayed through the model in exact rationals; the oracle checks error bound, the three rank bounds (old rank, rmax, exact unfolding rank), shape, and bit-identity of the operand afterwards, on inflated / rank-deficient / badly scaled / zero / generic operands.",
+         TB + "QR and SVD contracts assumed (SVD monitored per call); the orthonormality of the frames that makes the per-bond errors add up is not formalised; roundoff outside the model", "§5 C02"),
+ "C05": ("proof",
+         "Lean theorems over the structural model M-shape: whatever the validating constructor accepts is well formed (cores all 3-d or all 4-d, ranks chain, boundary ranks 1, N/M/R/shape/is_ttm describe exactly those cores, full() shape = M+N); set_core and reduce_dims preserve well-formedness; hence every object in every store reachable by ANY finite history of constructor / set_core / reduce_dims calls is well formed (reachable_wf, induction over histories). "
+         "Tie: random walks over ~40 public operations incl. solvers with guesses from the store; after each call every live object is checked against the property directly, and every constructor / set_core / reduce_dims call observed during the walks is replayed through the model (exact comparison of kind, N, M, R, shape, or exception class).",
+         TB + "that every public operation other than the two in-place ones builds its result through the validating constructor is observed (constructor wrapper), not proved per operation", "§5 C05"),
+ "C06": ("proof",
+         "Lean theorems over the effect model M-heap: no call changes the observables (core-list identity, element identities, version counters) of a pre-existing object unless it is a documented in-place call targeting that object; by induction over histories of any length an object keeps its observables whatever is later computed from it or its operands (history_stable, result_stable). "
+         "Tie: systematic sweep over every walker operation and argument position (incl. optional initial guesses of DMRG/AMEn/solve/divide/cross) plus random histories re-using results and views; before/after each call ranks, shape, dtype, dense value, list identity, element identities and version counters of EVERY live object are compared; the observed write-sets are compared with the model's effect classes.",
+         TB + "the assignment of each Python operation to an effect class is validated by observation on every call of the run, not proved; raw-constructor list sharing is an explicit hypothesis", "§5 C06"),
+ "C18": ("proof",
+         "Lean theorems over the guard model: for +,-,* and @ between TT objects, whenever the operands have no dense counterpart (kind mismatch, non-broadcastable / unequal shapes) the guard returns an exception class and never `ok` (reject_complete), the documented class is the one returned (IncompatibleTypes / ShapeMismatch / InvalidArguments), @ accepts exactly the compatible pairs; the constructor's rejection logic is the M-shape theorem. "
+         "Tie: malformed stream (~1100 cases: every entry point x incompatibility class x position) executed on the real code with the property as oracle (must raise; documented class where the docstring names one), guard/constructor outcomes compared with the model outcome-class by outcome-class; a control stream checks that compatible calls are not rejected.",
+         TB + "entry points whose guards are not modelled in Lean (solvers, interpolate, reshape/permute argument checks, indexing, set_core) are decided by the oracle on the malformed stream only", "§5 C18"),
+ "C19": ("proof",
+         "Lean theorems: rebuilding an object from its cores alone (what load, clone, detach, to, cpu do) reproduces exactly the same kind, N, M, R and shape for every well-formed object (meta_fromCores), including after set_core / reduce_dims and for every reachable object (meta_reachable); metadata is unique given the cores. "
+         "Tie: save->load / clone / detach / to / cpu / numpy on TT tensors and matrices of order 1..6 incl. TT-SVD outputs (numpy ints in R) and non-contiguous views: cores bit-identical, metadata identical and equal to the Lean constructor model on the core shapes, clone shares no storage.",
+         TB + "torch.save/torch.load/pickle trusted for the tensors themselves", "§5 C19"),
  "C20": ("proof",
          "Lean theorem forward_eq: for every order, mode/rank profile, core value and batch index, the successive-tensordot forward pass equals Σ_j W(i,j)·x(b,j) + bias(i) with W = full(cores). "
          "Tie: exact correspondence on integer layers for 0..3 batch dims, both initialisers and dtypes; parameters registration and exact gradients are compared with an independent dense autograd graph on every case.",
@@ -57,9 +77,15 @@ NOT_YET = {
 }
 
 
+PENDING = {"C18"}   # built, waiting for their Lean theorems to be merged
+
+
 def main():
     checks = []
     for pid in sorted(CHECKS):
+        if pid in PENDING:
+            NOT_YET[pid] = "check written and passing; its Lean theorems are being merged (claimed as soon as they are registered)"
+            continue
         cat, text, note, ref = CHECKS[pid]
         checks.append({
             "property_id": pid,
@@ -79,10 +105,10 @@ def main():
                   "enable": "no source hooks are needed: all observation is from outside (module attribute wrapping, version counters, storage pointers); the variable is not read by /repo",
                   "baseline_off_cmd": "cd /repo && /venv/bin/python -m pytest -ra -q -p no:cacheprovider --timeout=900 --continue-on-collection-errors",
                   "source_commits": [], "add_only": True},
-        "engines": [{"name": "lean-model+correspondence", "path": "harness/check.py", "serves_properties": sorted(CHECKS),
+        "engines": [{"name": "lean-model+correspondence", "path": "harness/check.py", "serves_properties": sorted(k for k in CHECKS if k not in PENDING),
                      "kind_free_text": "Lean 4 theorems about hand-written executable models (lean/TTModel), tied to /repo on every run by an exact differential execution of the models (lake env lean --run TTModel/Driver.lean) against the real torchtt, plus the property's own dense oracle on every case"}],
         "checks": checks,
-        "not_applicable": [{"property_id": k, "reason": v} for k, v in sorted(NOT_YET.items()) if k not in CHECKS],
+        "not_applicable": [{"property_id": k, "reason": v} for k, v in sorted(NOT_YET.items()) if k not in CHECKS or k in PENDING],
         "notes": "fix: commits in /repo are listed in known_findings.json (kind=fixed); unrepaired defects are kind=finding",
     }
     json.dump(man, open(os.path.join(ROOT, "MANIFEST.json"), "w"), indent=1, ensure_ascii=False)
